@@ -73,8 +73,14 @@ def check(tree, rep, tier='quick', seed=0):
                     for fm in sorted(forms):
                         if cname != f'number_{fm}':
                             bad.append(f'copies of {fm} are enumerated up to {cnt.args[0]} (the count of another form): copies numbered at or above that count are dropped, so renumbering changes the result')
-            if e.op == 'countif':
-                pass
+            if e.op == 'loopval' and len(e.args) >= 2:
+                # a variable that the loop over the copies simply overwrites keeps the value of the LAST copy visited: which copy
+                # that is depends on the numbering (and the other copies' amounts are lost)
+                reads = []
+                walk(e.args[1], lambda x: reads.append(x.args[0]) if x.op in ('i', 'v') and isinstance(x.args[0], str) and '{' in x.args[0] else None)
+                if reads:
+                    bad.append(f'a variable is overwritten in every round of the loop over the copies with a value read from the copy ({reads[0]}): after the loop it holds the last copy\'s '
+                               'value only - the other copies are lost and renumbering them changes the result')
             if e.op in ('i', 'v') and isinstance(e.args[0], str) and '{' in e.args[0]:
                 key = e.args[0]
                 fpart, _, npart = key.partition('.')
